@@ -484,6 +484,23 @@ class Engine:
         if r == z3.unsat:
             raise PathEnd()
 
+    def _assumed_literally(self, cond):
+        def conj(e, out):
+            if z3.is_and(e):
+                for c in e.children():
+                    conj(c, out)
+            else:
+                out.append(e)
+            return out
+        want = conj(cond, [])
+        if not want or len(want) > 64:
+            return False
+        have = set()
+        for a in self.solver.full.assertions():
+            for c in conj(a, []):
+                have.add(c.get_id())
+        return all(w.get_id() in have for w in want)
+
     def oblige(self, cond, name, line=None):
         """proof obligation: cond must follow from the path condition."""
         line = self.line if line is None else line
@@ -504,6 +521,12 @@ class Engine:
                 raise PathEnd()
             raise PathEnd()
         t0 = time.time()
+        if self._assumed_literally(cond):
+            # every conjunct of the obligation is, syntactically, a conjunct of what is assumed on this path (a clause of a block
+            # contract restated by the enclosing contract, an invariant carried through): nothing for the solver to do
+            self.obs[key] = Ob(name, 'unsat', 0.0, path=key[1], line=line, backend='syntactic')
+            self.solver.add(cond)
+            return
         r, m = self.check(z3.Not(cond))
         ms = (time.time() - t0) * 1000
         st = _st(r)
@@ -1144,9 +1167,15 @@ class Engine:
                     self.spec -= 1
                 pats = [to_z3(p) for p in (pv if isinstance(pv, tuple) else (pv,))]
         q = z3.ForAll if node.func.id == 'forall' else z3.Exists
+        # binder names that depend on the specification text only (not on a counter): two evaluations of the same clause give the
+        # same formula, syntactically - the solver then sees one atom, not two alpha-variants it has to relate by instantiation.
+        # No capture: the canonical constants occur free only here (enclosing quantifiers still carry their fresh constants)
+        canon = [z3.Const('?' + n, t.sort()) for n, t in zip(names, tys)]
+        pairs = list(zip(consts, canon))
+        body = z3.substitute(body, *pairs)
         if pats:
-            return q(consts, body, patterns=pats)
-        return q(consts, body)
+            return q(canon, body, patterns=[z3.substitute(p_, *pairs) for p_ in pats])
+        return q(canon, body)
 
     def concrete_list(self, v):
         if isinstance(v, (tuple, list)):
